@@ -189,6 +189,8 @@ def rule_project_eval(cx, m, rid):
         else:
             if writes["P/src/main.cpp"][2] != code or writes["P/src/main.cpp"][3] not in ("utf-8", "utf8", "UTF-8"):
                 problems.append(f"main.cpp is not the given code in utf-8: given {code!r}, written {writes['P/src/main.cpp'][2]!r}")
+            if writes["P/platformio.ini"][3] not in ("utf-8", "utf8", "UTF-8"):
+                problems.append("platformio.ini is not written as utf-8")
             ini = writes["P/platformio.ini"][2]
             lines = [l_ for l_ in ini.split("\n")]
             sections = [l_ for l_ in lines if l_.startswith("[")]
@@ -256,70 +258,30 @@ def rule_libs(cx, m, rid):
 
 
 def rule_write(cx, m, rid):
-    r = cx.rule(rid, "write_project validates first, writes exactly src/main.cpp (the cpp_code parameter, utf-8) and platformio.ini under project_dir, placeholders fed by same-named parameters", floor=8)
+    """who-may-call part only: write_project (and the helpers it calls) use no raw file/process primitive.  What it writes,
+    where, with which encoding and that an unsupported pair writes nothing is decided by evaluation (…-EVAL rule), whatever
+    local variables or helpers the paths and the ini text go through."""
+    r = cx.rule(rid, "write_project and the module helpers it calls perform no file/process effect other than pathlib mkdir/write_text (no open(), os.*, shutil, subprocess)", floor=2)
     wp = m.func("write_project")
     params = [a.arg for a in wp.args.args + wp.args.kwonlyargs]
     for need in ("project_dir", "cpp_code", "port", "platform", "board", "lib_deps"):
         if need not in params:
             raise AnalysisError(f"write_project lost parameter {need}")
-    body = [s for s in wp.body if not (isinstance(s, ast.Expr) and isinstance(s.value, ast.Constant))]
-    first = body[0]
-    r.check(isinstance(first, ast.Expr) and call_name(first.value) == "validate_platform_board" and [norm(a) for a in first.value.args] == ["platform", "board"] and not first.value.keywords,
-            "write_project/validate-first", (m, first), "write_project must call validate_platform_board(platform, board) before any effect")
-    writes, mkdirs, others = [], [], []
-    assigns = {}
-    for s in body:
-        if isinstance(s, ast.Assign) and len(s.targets) == 1 and isinstance(s.targets[0], ast.Name):
-            assigns[s.targets[0].id] = s.value
-    for c in calls_in(wp):
-        if isinstance(c.func, ast.Attribute) and c.func.attr == "write_text":
-            writes.append(c)
-        elif isinstance(c.func, ast.Attribute) and c.func.attr == "mkdir":
-            mkdirs.append(c)
-        elif isinstance(c.func, ast.Attribute) and c.func.attr in ("write_bytes", "unlink", "rmdir", "rename", "replace", "touch", "open", "symlink_to", "chmod") or call_name(c) in ("open", "os.remove", "os.unlink", "shutil.rmtree", "os.makedirs", "os.mkdir", "subprocess.run"):
-            others.append(c)
-    for c in others:
-        r.fail(f"write_project/extra-effect[{call_name(c) or c.func.attr}]", (m, c), "write_project performs a file/process effect other than its two writes and one mkdir")
-    r.check(len(writes) == 2, "write_project/two-writes", (m, wp), f"expected exactly two write_text calls, found {len(writes)}")
-    r.check(len(mkdirs) == 1, "write_project/one-mkdir", (m, wp), f"expected exactly one mkdir, found {len(mkdirs)}")
-    seen_paths = {}
-    for c in writes + mkdirs:
-        parts = _path_parts(c.func.value)
-        if parts is None:
-            r.fail("write_project/path-shape", (m, c), "target path is not project_dir / <literal parts>")
+    scope, todo = [], [wp]
+    while todo:
+        f_ = todo.pop()
+        if f_ in scope:
             continue
-        base, rel = parts
-        okp = base == "project_dir" and all(p not in ("..", "") and not p.startswith("/") and "\\" not in p for p in rel)
-        r.check(okp, f"write_project/inside-project[{'/'.join(rel)}]", (m, c), f"path {base}/{'/'.join(rel)} is not confined to the project directory")
-        seen_paths["/".join(rel)] = c
-    r.check("src/main.cpp" in seen_paths and "platformio.ini" in seen_paths and "src" in seen_paths, "write_project/paths", (m, wp), f"files written: {sorted(seen_paths)}; expected src/, src/main.cpp and platformio.ini")
-    mc = seen_paths.get("src/main.cpp")
-    if mc is not None:
-        r.check(len(mc.args) >= 1 and "cpp_code" in {x.id for x in ast.walk(mc.args[0]) if isinstance(x, ast.Name)} | {x.id for d_ in Locals(wp).defs.get(norm(mc.args[0]), []) if isinstance(d_, ast.AST) for x in ast.walk(d_) if isinstance(x, ast.Name)}, "write_project/main.cpp=cpp_code", (m, mc), "what is written to main.cpp does not derive from the cpp_code parameter (that it is the parameter verbatim is decided by the evaluation rule)")
-        enc = kwarg(mc, "encoding")
-        r.check(enc is not None and lit.try_ev(enc) in ("utf-8", "utf8", "UTF-8"), "write_project/main.cpp-utf8", (m, mc), "main.cpp must be written as utf-8")
-    ic = seen_paths.get("platformio.ini")
-    if ic is not None:
-        enc = kwarg(ic, "encoding")
-        r.check(enc is not None and lit.try_ev(enc) in ("utf-8", "utf8", "UTF-8"), "write_project/ini-utf8", (m, ic), "platformio.ini must be written as utf-8")
-        # find the PIO_INI.format(...) call that feeds it
-        fmt = [c for c in calls_in(wp) if isinstance(c.func, ast.Attribute) and c.func.attr == "format" and norm(c.func.value) == "PIO_INI"]
-        if len(fmt) != 1:
-            # rendered elsewhere (a helper): the placeholder feeds are then decided by the evaluation rule (…-EVAL)
-            cx.extra["ini_render"] = "PIO_INI.format is not called in write_project itself; see the -EVAL rule"
-            return
-        f = fmt[0]
-        want = {"platform": "platform", "board": "board", "port": "port"}
-        for k, v in want.items():
-            a = kwarg(f, k)
-            r.check(a is not None and norm(a) == v, f"ini/placeholder[{k}]<-{v}", (m, f), f"placeholder {k} must be fed by parameter {v}")
-        a = kwarg(f, "env_name")
-        src_env = assigns.get(norm(a)) if a is not None and isinstance(a, ast.Name) else a
-        r.check(src_env is not None and call_name(src_env) == "_sanitize_env_name" and [norm(x) for x in src_env.args] == ["board"], "ini/placeholder[env_name]<-_sanitize_env_name(board)", (m, f), "env_name must be _sanitize_env_name(board)")
-        a = kwarg(f, "lib_section")
-        src_lib = assigns.get(norm(a)) if a is not None and isinstance(a, ast.Name) else a
-        r.check(src_lib is not None and call_name(src_lib) == "_format_lib_section" and [norm(x) for x in src_lib.args] == ["lib_deps"], "ini/placeholder[lib_section]<-_format_lib_section(lib_deps)", (m, f), "lib_section must be _format_lib_section(lib_deps)")
-
+        scope.append(f_)
+        for c in calls_in(f_):
+            if isinstance(c.func, ast.Name) and c.func.id in m.funcs:
+                todo.append(m.funcs[c.func.id])
+    for f_ in scope:
+        others = [c for c in calls_in(f_) if (isinstance(c.func, ast.Attribute) and c.func.attr in ("write_bytes", "unlink", "rmdir", "rename", "replace", "touch", "open", "symlink_to", "chmod")) or call_name(c) in ("open", "os.remove", "os.unlink", "shutil.rmtree", "os.makedirs", "os.mkdir", "subprocess.run", "os.system", "subprocess.Popen", "subprocess.call")]
+        for c in others:
+            r.fail(f"{f_.name}/extra-effect[{call_name(c) or c.func.attr}]", (m, c), "write_project performs a file/process effect other than its two writes and one mkdir")
+        r.ok(f"{f_.name}: no raw file/process primitive")
+    return r
 
 
 def rule_ini(cx, m, rid, all_boards):
